@@ -52,11 +52,9 @@ rng = random.Random(12345)
 
 
 def sortable(items):
-    try:
-        sorted(items)
-        return True
-    except Exception:  # pylint: disable=broad-except
-        return False
+    """True if the items have a TOTAL order (one scalar type): only then does reprlib define the order in which they are shown."""
+    kinds = {type(item) for item in items}
+    return len(kinds) <= 1 and kinds <= {int, float, str, bytes}
 
 
 def violate(name, kwargs):
